@@ -390,9 +390,54 @@ def r5(ctx) -> None:
     ctx.sites("C19-R5", "plugin method calls", n, 10)
 
 
+def r2_reach(ctx) -> None:
+    """Every registration request reaches add_plugin_to_registry (which alone decides first-wins/warn/full-name)."""
+    repo = ctx.repo
+    inst = ctx.fn(BASE, "add_instantiated_plugin_to_registry")
+    p = inst.params()
+    keys_p, cls_p, reg_p = p[0], p[1], p[2]
+    loops = [lp for lp in lib.nodes(inst, ast.For) if norm(lp.iter) == keys_p and isinstance(lp.target, ast.Name)]
+    ok = len(loops) == 1
+    trace = []
+    call = None
+    if ok:
+        lp, kv = loops[0], loops[0].target.id
+        calls_ = [c for c in lib.calls(lp) if norm(c.func) == "add_plugin_to_registry"]
+        leaves = [n for n in ast.walk(lp) if isinstance(n, (ast.Continue, ast.Break, ast.Return))]
+        ok = len(calls_) == 1 and lib.stmt_of(calls_[0]) in lp.body and not leaves
+        trace.append(f"calls in loop: {len(calls_)}, statements leaving the loop body early: {len(leaves)}")
+        if ok:
+            call = calls_[0]
+            kw = {k.arg: norm(k.value) for k in call.keywords}
+            okk = kw.get("plugin_register_key") == kv and kw.get("plugin") == f"{cls_p}({kv})" and kw.get("plugin_registry") == reg_p \
+                and kw.get("instance_identifier") == kv
+            ctx.ob("C19-R2", "add_instantiated_plugin_to_registry/arguments", okk, inst, call,
+                   "each key is registered with a fresh instance created for that key, in the caller's registry, with the key as identifier",
+                   construct=lib.short(call, 140))
+    ctx.ob("C19-R2", "add_instantiated_plugin_to_registry/every-key-reaches-the-registry", ok, inst, loops[0] if loops else inst.node,
+           "for every requested key add_plugin_to_registry is called unconditionally: skipping a key (e.g. 'already registered') bypasses "
+           "the first-wins warning and the full-name entry that keep every plugin retrievable", trace)
+    n = 0
+    for rel, outer, callee in ((DIO, "register_data_io", "add_instantiated_plugin_to_registry"), (PIO, "register_project_io", "add_instantiated_plugin_to_registry"),
+                               (MEG, "register_megacomplex", "add_plugin_to_registry")):
+        fo = ctx.fn(rel, outer)
+        cands = [fo] + [f for f in repo.functions.values() if f.parent is fo]
+        found = [(f, c) for f in cands for c in lib.calls(f) if norm(c.func) == callee]
+        n += len(found)
+        okr = len(found) == 1
+        if okr:
+            f, c = found[0]
+            guards = [a for a in lib.ancestors(c, f.node) if isinstance(a, (ast.If, ast.Try, ast.For, ast.While))]
+            cfgf = lib.cfg(f)
+            okr = not guards and not cfgf.exists_path(cfgf.entry, cfgf.exit, avoid=[lib.stmt_of(c)], exc=False)
+        ctx.ob("C19-R2", f"{outer}/always-registers", okr, fo, found[0][1] if found else fo.node,
+               f"the registration decorator/function calls {callee} on every path", construct=lib.short(found[0][1], 100) if found else "def " + outer)
+    ctx.sites("C19-R2", "registration wrappers", n, 3)
+
+
 def check(ctx) -> None:
     for g in check.groups:
         g(ctx)
 
 
-check.groups = [r1, r2_r3, r4, r5]
+check.groups = [r1, r2_r3, r4, r5, r2_reach]
